@@ -234,7 +234,11 @@ theorem toIndex_sound (s : List Char) (v : Nat) (h : toIndex s = some v) : Index
   split at h
   · rename_i hall
     split at h
-    · rename_i hf
+    · rename_i hf0
+      have hf : isFloat s = true := by
+        have h0 := hf0
+        simp only [Bool.and_eq_true] at h0
+        exact h0.1
       cases h
       obtain ⟨ws1, ws2, h1, a1, a2⟩ := trim_decomp s
       have hsd : ∀ c ∈ trim s, SD c = true := by
